@@ -113,6 +113,10 @@ func checkC02(p *Program, r *Report) {
 	checkEncodeIndependent(p, r, "C02.encode-independent")
 	checkCodecsAs(p, r, "C02")
 	checkCapacity(p, r, "C02.capacity")
+	// RangeGet on a key that was de-duplicated away answers with the left neighbour of the three-way
+	// descent, finished by the right-most walk: the neighbour rules of C09 under C02's name
+	r.Explanation += " (descent) the neighbour rules of the three-way descent that RangeGet shares with Search: one definition of a node's first and last child, candidates only inside the child range, left candidate finished by the right-most walk (rules shared with C09)."
+	checkDescentNeighboursAs(p, r, "C02")
 }
 
 // checkRangeRouting: index.RangeGet -> SlimTrie.RangeGet; RangeGet and Search
